@@ -215,5 +215,5 @@ func genC07(rt *rapid.T) Case {
 }
 
 func TestC07Pacemaker(t *testing.T) {
-	common.Check(t, "C07", "TestC07Pacemaker", 1500, 100000, genC07, c07Prop)
+	common.Check(t, "C07", "TestC07Pacemaker", 8000, 160000, genC07, c07Prop)
 }
